@@ -144,6 +144,15 @@ def judge_v3(op, g, sp, out, full):
     if len(kk) >= 2 and None not in kk[:2]:
         if kk[1] > kk[0]:
             out.add("C13", "temporal %s exceeds base %s" % (kk[1], kk[0]))
+    toks = _tokens(op)
+    if toks is not None:
+        tvals = [toks.get(n, "X") for n in ("E", "RL", "RC")]
+        if len(s) >= 2 and all(v == "X" for v in tvals) and s[1] != s[0]:
+            out.add("C13", "temporal metrics all Not Defined but temporal %s != base %s" % (kk[1], kk[0]))
+        evals = [toks.get(n, "X") for n in ("CR", "IR", "AR", "MAV", "MAC", "MPR", "MUI", "MS", "MC", "MI", "MA")]
+        exc = toks.get("CVSS") == "3.1" and toks.get("S") == "C"
+        if len(s) >= 3 and all(v == "X" for v in evals) and not exc and s[2] != s[1]:
+            out.add("C13", "environmental metrics all Not Defined but environmental %s != temporal %s" % (kk[2], kk[1]))
     if not full:
         return
     if g.get("vl") != sp.get("vl"):
@@ -165,6 +174,19 @@ def judge_v3(op, g, sp, out, full):
         out.add("C10", "decode(encode(x)) differs from x: %s" % g.get("rt"))
     if "0" in g.get("pv", ""):
         out.add("C14", "view differs from an independent decode of its own encoding: pv=%s" % g.get("pv"))
+
+
+def _tokens(op):
+    """name -> value of an accepted vector's tokens (first occurrence)"""
+    try:
+        v = core.unhx(op[2]).decode("latin-1")
+    except Exception:
+        return None
+    d = {}
+    for t in v.split("/"):
+        n, _, val = t.partition(":")
+        d.setdefault(n, val)
+    return d
 
 
 def _band3(k):
@@ -264,6 +286,12 @@ def judge_v2(op, g, sp, out, full):
     kk = [bits_tenths(x) for x in s]
     if len(kk) >= 2 and None not in kk[:2] and kk[1] > kk[0]:
         out.add("C13", "temporal %s exceeds base %s" % (kk[1], kk[0]))
+    toks = _tokens(op)
+    if toks is not None:
+        if len(s) >= 2 and all(toks.get(n) == "ND" for n in ("E", "RL", "RC")) and kk[1] != kk[0]:
+            out.add("C13", "temporal metrics all Not Defined but temporal %s != base %s" % (kk[1], kk[0]))
+        if len(s) >= 3 and toks.get("TD") == "N" and kk[2] != 0:
+            out.add("C13", "Target Distribution None but environmental score %s" % kk[2])
     if not full:
         return
     if g.get("fc") != sp.get("fc"):
